@@ -63,7 +63,7 @@ def one_case(rng, tier):
         if rng.random() < 0.3:
             add({'op': 'map', 'f': 'ident'})
     g = aprogs.AGen(rng)
-    nodes.append({'id': 'sk', 'op': 'sink', 'ups': [last], 'kind': rng.choice(['sync', 'coro', 'future', 'tornado']), 'svc': g._svc()})
+    nodes.append({'id': 'sk', 'op': 'sink', 'ups': [last], 'kind': rng.choice(['sync', 'coro', 'future', 'tornado', 'awaitable']), 'svc': g._svc()})
     prog = {'nodes': nodes, 'extra_edges': []}
     np_ = rng.choice([1, 1, 2, 3, 4])
     prods = []
